@@ -665,7 +665,8 @@ def plan_label(run, prop, tier):
     acc = Acc()
     full, lo, hi = (4, 5, 10) if tier == "quick" else (5, 6, 11)
     cfg = f"INIT Init\nNEXT Next\nCONSTANTS Full = {full} LongLo = {lo} LongHi = {hi}\nCHECK_DEADLOCK FALSE\n"
-    path, cached = vlib.emit_ts(run, "LabelGen", cfg, timeout=3000)
+    # (all texts of up to five symbols over sixteen symbols are more than TLC's default bound on the size of a set)
+    path, cached = vlib.emit_ts(run, "LabelGen", cfg, timeout=3000, extra=["-maxSetSize", "6000000"])
     head = open(path).read(400000)
     import re as _re
     m = _re.search(r'<<"LABEL-THEOREMS", (TRUE|FALSE), (TRUE|FALSE), (TRUE|FALSE), (TRUE|FALSE), (\d+), (\d+)>>', head)
@@ -733,7 +734,9 @@ def plan_export(run, prop, tier):
           dict(profile="observe", n=4, cap=16, steps=1500, seed=s * 100 + 89, window=6, odd=1),
           dict(profile="fan", n=16, cap=32, steps=600, seed=s * 100 + 90, window=12, observe=20, odd=1),
           # one path of 140 vertices through ten groups (inspect walks 139 edges deep; three-digit ids in every printer)
-          dict(profile="deepchain", n=1, cap=256, steps=0, seed=s * 100 + 91, window=8)]
+          dict(profile="deepchain", n=1, cap=256, steps=0, seed=s * 100 + 91, window=8),
+          # the printers on data of 4 KiB .. 1 MiB (original and copy)
+          dict(profile="bigdata", n=2, cap=16, steps=0, seed=s * 100 + 93, window=8)]
     if tier == "thorough":
         op += [dict(profile="observe", n=n, cap=cap, steps=8000, seed=s * 1000 + 800 + i, window=w) for i, (n, cap, w) in enumerate([(1, 12, 8), (3, 32, 14), (4, 64, 24), (8, 128, 40), (16, 64, 60)])]
     e3_drive(run, acc, op, label="E3 observers")
